@@ -151,6 +151,7 @@ def run(rep, tier):
     orient_args(rep, F)
     kernel_dispatch(rep, F)
     integer_kernel(rep, F)
+    kernel_sqdist(rep, F)
     tables(rep, F, tier)
 
 
@@ -481,3 +482,35 @@ def kernel_dispatch(rep, F):
     rep.floor("R3.5", "Kernel call sites", n, 25)
     rep.expect_control("R3.5")
     rep.control("R3.5", ctl)
+
+
+def kernel_sqdist(rep, F, rule="R3.8"):
+    """Kernel::square_euclidean_distance (the default body and every override), the tie-break of the Graham scan's angular sort: on witness
+    pairs with mixed signs it is (p.x - q.x)^2 + (p.y - q.y)^2 (numeric evaluation of the extracted term)."""
+    import itertools
+    from ..numeval import NumEval
+    from ..evalterm import NoModel
+    rep.rule(rule, "Kernel::square_euclidean_distance (default and overrides) = (p.x - q.x)^2 + (p.y - q.y)^2 on mixed-sign witnesses")
+    fns = [g for k, g in F.fns.items() if k.endswith("::square_euclidean_distance") and g.crate == "geo"]
+    if not fns:
+        rep.bad(rule, "sqdist:anchor", "no square_euclidean_distance body found")
+        return
+    W = [(-3.0, 2.0), (1.0, 5.0), (0.0, 0.0), (4.0, -1.0), (2.5, 2.5)]
+    for fn in fns:
+        try:
+            paths = [p for p in Symex(F, inline_crates=("geo", "geo_types")).run(fn) if p.kind != "cut"]
+            bad = None
+            for p_, q_ in itertools.product(W, repeat=2):
+                ev = NumEval(F, {("arg", 1): {"x": p_[0], "y": p_[1]}, ("arg", 2): {"x": q_[0], "y": q_[1]}})
+                hit = ev.select_path(paths)
+                got = [float(ev.ev(h.ret)) for h in hit if h.kind == "ret"]
+                want = (p_[0] - q_[0]) ** 2 + (p_[1] - q_[1]) ** 2
+                if len(got) != 1 or abs(got[0] - want) > 1e-9:
+                    bad = "square_euclidean_distance(%s, %s) evaluates to %s, expected %s" % (p_, q_, got, want)
+                    break
+        except (Unanalysable, NoModel, TypeError, KeyError) as e:
+            bad = "cannot be evaluated: %s" % e
+        if bad:
+            rep.bad(rule, "sqdist:%s" % short(fn.path), bad, where=fn.loc())
+        else:
+            rep.ok(rule, "sqdist:%s[25 witnesses]" % short(fn.path))
